@@ -451,7 +451,7 @@ fn machine_case(seed: u64, i: u64) -> CaseOut {
     }
     cmds.push(Cmd::Exit);
     lines.push("exit".into());
-    let sep = if rng.bool() { ";" } else { "\n" };
+    let sep = *rng.pick(&[";", "\n", "mix", "mix"]);
     let checked = run_and_verify(&mut out, "C14", i, src, false, &cmds, &lines, sep, &[], false, &[]);
     if checked.stats.is_some() {
         out.class("family:machine");
